@@ -47,7 +47,10 @@ ASSUMPTIONS = [
     "`C05_no_panic_partial` excludes maybe_clone_an_option_into_selectedcontent (fuel adequacy of three bounded loops "
     "and validity of template-contents links are not part of the proved invariant); no such call panics in any case",
 ]
-RULE = ("documents for the real parsers under the contract monitor: fixed list (adoption agency, foster parenting, "
+RULE = ("documents for the real parsers under the contract monitor: adoption-agency family (formatting element x every "
+        "sequence of <= 3 (a: 4; thorough 5) intermediates over {b,i,nobr,span,ruby,div,p} x [div] x end tag, plus "
+        "two-formatting-element misnestings in cells); XML attribute-aliasing family (prefixes x,y,default bound to "
+        "{u, xml-namespace URI, v} on the element or its parent x ordered pairs of {x:k,y:k,xml:k,k,x:j,xml:j}); fixed list (adoption agency, foster parenting, "
         "templates, selects, frameset, foreign content, doctype placements, duplicate attributes) x {scripting off, "
         "scripting on + one-character chunks}; seeded tag soup over 7 themes (table / format / template / select / "
         "skeleton / foreign / dupattr) with random chunking, 20% scripting on, 25% fragment parsing in 14 context "
@@ -91,6 +94,61 @@ XML_FIXED = [
     "<a xmlns='u'><b xmlns=''><c/></b></a>", "</a>", "<a", "<!DOCTYPE a><!--c--><?p?><a/>",
 ]
 
+# adoption agency: `<F> m1 … mk [<div>] x </F> y` — every sequence of intermediates (formatting, ordinary and
+# special elements) between the formatting element and the text, to a bounded depth
+AA_FMT = ["a", "b", "i", "nobr", "font"]
+AA_MID = ["b", "i", "nobr", "span", "ruby", "div", "p"]
+
+
+def adoption_docs(tier):
+    import itertools
+    depth_all, depth_a = (3, 4) if tier == "quick" else (5, 5)
+    out = []
+    for f in AA_FMT:
+        dmax = depth_a if f == "a" else depth_all
+        for k in range(dmax + 1):
+            for mids in itertools.product(AA_MID, repeat=k):
+                body = "".join("<%s>" % m for m in mids)
+                out.append("<%s>%s<div>x</%s>y" % (f, body, f))
+                if k:
+                    out.append("<%s>%sx</%s>y" % (f, body, f))
+    # two formatting elements closed in the wrong order, inside a table cell (marker), after text
+    for f, g in itertools.permutations(["a", "b", "i"], 2):
+        for mid in ("span", "ruby", "div", "p"):
+            out.append("<table><td><%s><%s><%s><div>x</%s>y</%s>z" % (f, g, mid, f, g))
+            out.append("q<%s>r<%s>s<%s>t<p>x</%s>y</%s>z" % (f, g, mid, f, g))
+    return out
+
+
+XMLNS_URI = "http://www.w3.org/XML/1998/namespace"
+
+
+def xml_alias_docs():
+    """two prefixes bound to the same URI (incl. the xml namespace URI, default + prefix), attributes colliding by
+    expanded name, both orders, declarations on the element or on its parent"""
+    out = []
+    uris = ["u", XMLNS_URI, "v"]
+    names = ["x:k", "y:k", "xml:k", "k", "x:j", "xml:j"]
+    for on_parent in (False, True):
+        for u1 in uris:
+            for u2 in uris:
+                for dflt in (None, "u", XMLNS_URI):
+                    decl = ' xmlns:x="%s" xmlns:y="%s"' % (u1, u2) + (' xmlns="%s"' % dflt if dflt else "")
+                    for a1 in names:
+                        for a2 in names:
+                            if a1 == a2:
+                                continue
+                            at = ' %s="1" %s="2"' % (a1, a2)
+                            if on_parent:
+                                out.append("<r%s><e%s/></r>" % (decl, at))
+                            else:
+                                out.append("<e%s%s/>" % (decl, at))
+    out += ['<e x="1" a:x="2"/>', '<e a:x="1" x="2"/>', '<e a:x="1" b:x="2"/>',
+            '<e xmlns:x="%s" xml:lang="en" x:lang="fr"/>' % XMLNS_URI, '<e xmlns:x="%s" x:lang="fr" xml:lang="en"/>' % XMLNS_URI,
+            '<r xmlns:a="u"><e xmlns:b="u" a:k="1" b:k="2"><f a:k="1" xmlns:a="v" b:k="2"/></e></r>']
+    return out
+
+
 _STATS = {}
 
 
@@ -108,6 +166,12 @@ def harvest(tier, rng):
         tags.append("fixed-xml")
         lines.append("rcdom\tparse-xml\t-\t" + "|".join(hx(c) for c in s))
         tags.append("fixed-xml")
+    for s in adoption_docs(tier):
+        lines.append("rcdom\tparse-html\t-\t" + hx(s))
+        tags.append("adoption")
+    for s in xml_alias_docs():
+        lines.append("rcdom\tparse-xml\t-\t" + hx(s))
+        tags.append("xml-alias")
     for _ in range(n_html):
         theme, s = D.gen_html(rng)
         opts = []
